@@ -113,6 +113,10 @@ let run_case op t =
       let x = read_f ty t in let y = read_f ty t in
       let (ct, rt) = if op = "fmod" then (ct_fmod, rt_fmod) else (ct_remainder, rt_remainder) in
       (res_s (okf ty false) (ct f x y), okf ty false (rt x y))
+  | "fmod_rt" | "remainder_rt" ->
+      let ty = next_str t in let _ = next_int t in let _ = next_int t in
+      let x = read_f ty t in let y = read_f ty t in
+      let s = okf ty false (if op = "fmod_rt" then rt_fmod x y else rt_remainder x y) in (s, s)
   (* single-path samples: one description, printed in both legs *)
   | "civil" ->
       let _ = next_int t in let z = next_z t in
